@@ -9,7 +9,7 @@ META = dict(
     explanation='Atoms / System editing operations are executed on per-atom properties whose VALUES are symbolic (atom types as symbolic integers >= 1, so that per-type masks, the atype >= 1 guard, natypes and the symbols/masses padding become solver decisions); every sequence of operations up to the bound from four pre-state shapes is run against an independent record-per-atom model. Aliasing is executed for real (NumPy object arrays keep view/copy semantics).',
     functions=['atomman/core/Atoms.py:Atoms.__init__,PropertyDict.__setitem__,__setattr__,__getitem__,__setitem__,__deepcopy__,prop,prop_atype,extend,natypes,atypes',
                'atomman/core/System.py:System.__init__,atoms_prop,atoms_extend,_AtomsIndexer,symbols,masses,natypes,pbc'],
-    bounds=dict(quick='3 atoms (+ up to 2 added), properties atype (symbolic ints in [1,3]), pos, a float (N,2) property, an int scalar property; 30 operations (every int index in [-3,2] for extraction); all sequences of length 1 from 4 pre-states and all ordered pairs from the fresh state restricted by a stride (seeded)',
+    bounds=dict(quick='3 atoms (+ up to 2 added), properties atype (symbolic ints in [1,3]), pos, a float (N,2) property, an int scalar property; 30 operations (every int index in [-3,2] for extraction); all sequences of length 1 from 4 pre-states and ALL ordered pairs (900) from the fresh state',
                 thorough='all ordered pairs from every pre-state, and triples by a stride'),
     outside=['histories longer than 3', 'string-valued properties', 'direct mutation of the arrays exposed by .view / attribute access (documented as views)'],
     lemmas=[], cuts=[], assumptions=['atom types in [1,3]'], trusted=['the 10-line reference semantics per operation in this module'],
@@ -340,7 +340,7 @@ def cases(tier, seed=0):
             cs.append(Case(f'one_{kind}_{op.__name__}', h_seq(kind, [op]), bind=BIND, budget_s=100, timeout_ms=10000, max_paths=300,
                            descr=f'pre-state {kind}; operation {op.__name__}'))
     pairs = list(itertools.product(range(len(OPS)), repeat=2))
-    stride = 5 if tier == 'quick' else 1
+    stride = 1          # every ordered pair of operations, in both tiers (a seeded subset was used earlier; the full set costs ~35 s)
     for n, (i, j) in enumerate(pairs):
         if (n + seed) % stride: continue
         for kind in (['fresh'] if tier == 'quick' else kinds):
